@@ -153,7 +153,7 @@ def decrement(prog, run):
             tau = se.ev(ast.parse("-(nxseg - 1) / np.log(0.01)", mode="eval").body)
             # nxseg here is the number of lines: use the code's own definition of tau through the environment
             env = astq.env_at(pf.node.body, a_xi)
-            tau_e = env.get("tau")
+            tau_e = astq.expr_at(pf, a_xi, ast.Name(id="tau", ctx=ast.Load())) if "tau" in env else None    # same expansion as xi itself
             tau = se.ev(tau_e) if tau_e is not None else None
             lam = (L * 2 - P_div(P.c(1), tau)) if tau is not None else None
         if lam is None:
@@ -166,7 +166,7 @@ def decrement(prog, run):
             # the windowed-correlogram case is outside the property's claim: the window term is not judged, only that xi has the
             # closed form in whatever slope the code uses
             env = astq.env_at(pf.node.body, a_xi)
-            lam_code = se.ev(env["lam"]) if "lam" in env else None
+            lam_code = se.ev(astq.expr_at(pf, a_xi, ast.Name(id="lam", ctx=ast.Load()))) if "lam" in env else None
             if lam_code is not None:
                 exp_xi = lam_code * P_pow(pi * pi * 4 + lam_code * lam_code, _Fr(-1, 2))
                 ok = xi_v == exp_xi
@@ -200,11 +200,12 @@ def decrement(prog, run):
         for c, x in dl:
             a, b = x.left, x.right
             sa_, sb_ = astq.strip_abs(prog, pf, a), astq.strip_abs(prog, pf, b)
-            ia = [s_ for s_ in ast.walk(a) if isinstance(s_, ast.Subscript)]
-            ib = [s_ for s_ in ast.walk(b) if isinstance(s_, ast.Subscript)]
+            ia = [sa_] if isinstance(sa_, ast.Subscript) else [s_ for s_ in ast.walk(a) if isinstance(s_, ast.Subscript)]
+            ib = [sb_] if isinstance(sb_, ast.Subscript) else [s_ for s_ in ast.walk(b) if isinstance(s_, ast.Subscript)]
             if ia and ib and astq.dump(ia[0].value) == astq.dump(ib[0].value):
                 first0 = isinstance(ia[0].slice, ast.Constant) and ia[0].slice.value == 0
-                kth = isinstance(ib[0].slice, ast.Name)
+                # the k-th extremum: a loop variable, or (vectorised) the ramp of all fit positions
+                kth = isinstance(ib[0].slice, ast.Name) or (isinstance(ib[0].slice, ast.Call) and astq.callee_name(prog, pf, ib[0].slice) in ("numpy.arange", "range"))
                 if first0 and kth:
                     okl = sa_ is not None and sb_ is not None
                 elif isinstance(ia[0].slice, (ast.Constant, ast.Name, ast.BinOp)) and isinstance(ib[0].slice, (ast.Constant, ast.Name, ast.BinOp)):
